@@ -71,7 +71,9 @@ import (
 //	                    SFootWrite SSync2): only exists after another failure of the same attempt
 //	after SFragStat failed (the attempt continues as a full compaction into N, which the recording
 //	of the partial attempt does not show) only SOpen / SHeader / SWStat are chosen, at N #0.
-//	SLoadStat and SMmap go through *os.File, not through the File interface: never chosen.
+//	SLoadStat: the Stat and mmap of doLoadSegments go through *os.File, not through the File interface; the
+//	recorder fails the load at its door instead (OsFile() #0 of the attempt's target file answers nil).  SMmap
+//	has the same effect in the model and is never chosen.
 
 var opsStepIx = map[string]int{"SFragStat": 0, "SOpen": 1, "SHeader": 2, "SSegStat": 3, "SSegWrite": 4,
 	"SWStat": 5, "SWSync": 6, "SWData": 7, "SSync1": 8, "SFootStat": 9, "SFootWrite": 10, "SSync2": 11,
@@ -566,6 +568,7 @@ func opsMap(cfg Config, at *opsAttempt, r *rng) (map[string]opsCoord, string) {
 		m["SSegWrite"] = opsCoord{"write", role, hdr + r.intn(W-1-hdr)}
 		m["SFootStat"] = opsCoord{"stat", role, S - 1}
 		m["SFootWrite"] = opsCoord{"write", role, W - 1}
+		m["SLoadStat"] = opsCoord{"osfile", role, 0}
 		expect("stats of an append with one segment", S, 2)
 		if syncOn {
 			expect("syncs", Y, 2)
@@ -589,6 +592,7 @@ func opsMap(cfg Config, at *opsAttempt, r *rng) (map[string]opsCoord, string) {
 		m["SSizeStat"] = opsCoord{"stat", 'F', 3 + r.intn(2)}
 		m["SWData"] = opsCoord{"write", 'F', r.intn(W - 1)}
 		m["SFootWrite"] = opsCoord{"write", 'F', W - 1}
+		m["SLoadStat"] = opsCoord{"osfile", 'F', 0}
 		mid := Y
 		if compSyncOn {
 			mid = Y - 2
@@ -619,6 +623,7 @@ func opsMap(cfg Config, at *opsAttempt, r *rng) (map[string]opsCoord, string) {
 		m["SFootStat"] = opsCoord{"stat", 'N', 1}
 		m["SWData"] = opsCoord{"write", 'N', 1 + r.intn(W-2)}
 		m["SFootWrite"] = opsCoord{"write", 'N', W - 1}
+		m["SLoadStat"] = opsCoord{"osfile", 'N', 0}
 		if at.servedName != "" {
 			// both Stats after the commit are on the superseded file: removeFileOnClose(old), then the
 			// "size after" statistic, which compactMaybe takes from the OLD footer's first segment
@@ -666,7 +671,7 @@ func opsRmStatOcc(first string) int {
 	switch first {
 	case "SWStat", "SWSync", "SWData", "SSync1":
 		return 1
-	case "SFootStat", "SFootWrite", "SSync2":
+	case "SFootStat", "SFootWrite", "SSync2", "SLoadStat":
 		return 2
 	}
 	return -1
